@@ -136,6 +136,15 @@ func runSubsys(sc subsysCfg, tier string) int {
 				r.Violate(verdict.Violation{Signature: f.Sig, What: fmt.Sprintf("history seed %d: %s", hseed, f.What), Witness: map[string]interface{}{"seed": hseed, "height": blk.H, "txs": sampleTxs(blk), "recipes": run.Recipes()}})
 				return true
 			}
+			if !sc.restarts && i%4 == 1 && blk.H > 3 && blk.H%7 == 3 && os.Getenv("VERIF_NO_RESTART") == "" {
+				// the node is stopped and started again between two blocks now and then: whatever the
+				// statement says about the chain's records holds whether or not the process was restarted
+				if err := run.Reps[0].Box.Restart(); err != nil {
+					r.Inconclusive(fmt.Sprintf("history seed %d: restart failed: %v", hseed, err))
+					return true
+				}
+				r.Count("node_restarts_between_blocks", 1)
+			}
 			if sc.restarts {
 				if blk.Resp[1] == nil {
 					r.Diag(fmt.Sprintf("history seed %d: restarted replica died at block %d", hseed, blk.H))
